@@ -36,7 +36,14 @@ Definition name_class (k : positive) : nclass :=
   else if decide (k = 10%positive) then CDropped
   else if decide (k = 13%positive) then CDropped
   else if decide (k = 15%positive) then CIgnoredDev
-  else CScalar.
+  else if decide (k = 4%positive) then CScalar
+  else if decide (k = 5%positive) then CScalar
+  else if decide (k = 6%positive) then CScalar
+  else if decide (k = 8%positive) then CScalar
+  else if decide (k = 11%positive) then CScalar
+  else if decide (k = 12%positive) then CScalar
+  else if decide (k = 16%positive) then CScalar
+  else CDropped.   (* a name outside the table is not claimed to be kept *)
 
 Notation rlist := (gmap positive Z).
 
@@ -114,18 +121,42 @@ Definition rt_domain (r : res) : bool :=
 (* ... and of ResourceList -> Resource -> ResourceList: the amounts NewResource reads are such amounts *)
 Definition rl_exact (rl : rlist) : bool := res_exact (fst (new_resource_z rl)).
 
+(* the Quantities on which [new_resource] describes NewResource at all: MilliValue() (cpu, ephemeral-storage,
+   scalars) resp. Value() (memory, pods) must fit int64 — beyond that apimachinery's AsScaledInt64 wraps,
+   which is not modelled *)
+Definition quantity_in_range (k : positive) (m : Z) : bool :=
+  match name_class k with
+  | CMem | CPods => bool_decide (Z.abs (qvalue m) < 2 ^ 63)
+  | CCpu | CEph | CScalar => bool_decide (Z.abs m < 2 ^ 63)
+  | _ => true
+  end.
+Definition rl_in_range (rl : rlist) : bool :=
+  bool_decide (map_Forall (fun k m => quantity_in_range k m = true) rl).
+
 (* ---- ResFloat642Quantity / ResQuantity2Float64 (resource_info.go 125-149) ----
    A float64 amount is x / g for the grid g (x an integer, g > 0; g = 1: integral amounts, g = 16: the
    1/16 grid of the arithmetic streams).  int64(quantity) truncates toward zero (Z.quot); cpu becomes a
    milli-quantity, every other name a whole-unit quantity (BinarySI).  Back: MilliValue() for cpu,
    Value() (rounding away from zero) otherwise.  Quantities are milli-integers as above. *)
-Definition float_to_quantity (g : Z) (is_cpu : bool) (x : Z) : Z :=
+Definition float_to_quantity_z (g : Z) (is_cpu : bool) (x : Z) : Z :=
   if is_cpu then Z.quot x g else 1000 * Z.quot x g.
 
 (* the float returned, in 1/g units *)
-Definition quantity_to_float (g : Z) (is_cpu : bool) (m : Z) : Z :=
+Definition quantity_to_float_z (g : Z) (is_cpu : bool) (m : Z) : Z :=
   if is_cpu then m * g else qvalue m * g.
 
-(* the domain on which the model claims to describe the float code: int64(f) defined, floats exact *)
+(* the same with the int64 / float64 effects of the Go expressions int64(quantity) and
+   float64(q.MilliValue()) / float64(q.Value()) (as in [convert] / [new_resource] above) *)
+Definition float_to_quantity (g : Z) (is_cpu : bool) (x : Z) : Z :=
+  let t := i64 (Z.quot x g) in if is_cpu then t else 1000 * t.
+Definition quantity_to_float (g : Z) (is_cpu : bool) (m : Z) : Z :=
+  f64 (if is_cpu then m else qvalue m) * g.
+
+(* the domain of the float -> Quantity -> float theorems: x/g is a float64 (g a power of two, x a
+   float64-exact integer) whose integer part is a float64-exact integer inside the int64 range *)
 Definition conv_domain (g x : Z) : bool :=
-  bool_decide (0 < g) && bool_decide (Z.abs x <= 2 ^ 53) .
+  bool_decide (0 < g) && (2 ^ Z.log2 g =? g) && fexact x && amount_ok (Z.quot x g).
+
+(* ... and of Quantity -> float -> Quantity: the value MilliValue() (cpu) resp. Value() (other names)
+   returns is a float64-exact integer inside the int64 range *)
+Definition qty_domain (is_cpu : bool) (m : Z) : bool := amount_ok (if is_cpu then m else qvalue m).
